@@ -1,4 +1,5 @@
 #!/bin/sh
+export VERIF_EVIDENCE_DIR=/verif/build/evidence_scratch
 # usage: mut.sh <prop> <file-in-repo> <sed-expr>   -- applies a mutation to /repo, runs the check, restores
 prop=$1; f=$2; expr=$3
 cd /repo && sed -i "$expr" "$f" && git diff --stat | head -3
